@@ -30,7 +30,7 @@ int prop_hash(Run&);     // C05
 #ifndef VF_PROPS
 #define VF_PROPS                                                                                                       \
     {"C01", prop_dispatch}, {"C02", prop_dispatch}, {"C03", prop_dispatch}, {"C04", prop_dispatch},                    \
-        {"C17", prop_dispatch}, {"C06", prop_order}, {"C08", prop_present}, {"C10", prop_rtti}, {"C05", prop_hash}, {"C07", prop_history}, {"C09", prop_vptr}, {"C12", prop_offsets}, {"C13", prop_encode}, {"C14", prop_isolation}, {"C15", prop_unknown},
+        {"C17", prop_dispatch}, {"C06", prop_order}, {"C08", prop_present}, {"C10", prop_rtti}, {"C05", prop_hash}, {"C07", prop_history}, {"C09", prop_vptr}, {"C12", prop_offsets}, {"C13", prop_encode}, {"C14", prop_isolation}, {"C15", prop_unknown}, {"C16", prop_threads}, {"C18", prop_list}, {"C19", prop_fwd},
 #endif
 
 static PropEntry g_props[] = {VF_PROPS{nullptr, nullptr}};
